@@ -1,6 +1,7 @@
 package main
 
 import (
+	"bytes"
 	"encoding/hex"
 	"encoding/json"
 	"errors"
@@ -820,6 +821,30 @@ func genStreams(r *runner) {
 		for ch := 0; ch <= 5; ch++ {
 			for e := 0; e < 2; e++ {
 				r.do(mk("streams-uppercase", "data", hx(s), "chunk", strconv.Itoa(ch), "eofwd", strconv.Itoa(e)))
+			}
+		}
+	}
+	// streams whose LAST bytes are a truncated multi-byte UTF-8 prefix (1 of 2, 1-2 of 3, 1-3 of 4 bytes), with the
+	// prefix at every alignment to 4 KiB / 8 KiB buffer boundaries, every chunking of the source, either EOF style
+	tails := [][]byte{{0xc3}, {0xe2}, {0xe2, 0x82}, {0xf0}, {0xf0, 0x9f}, {0xf0, 0x9f, 0x98}, {0xc3, 0xa9, 0xc3}, {0xff}, {0x80}}
+	bodyLens := []int{0, 1, 2, 3, 4, 5}
+	for _, base := range []int{4096, 8192, 65536} {
+		for d := -4; d <= 3; d++ {
+			bodyLens = append(bodyLens, base+d)
+		}
+	}
+	for _, bl := range bodyLens {
+		for _, tail := range tails {
+			data := append(bytes.Repeat([]byte("a"), bl), tail...)
+			for _, ch := range []int{0, 1, 3, 4096, 4097} {
+				if ch == 1 && bl > 9000 {
+					continue
+				}
+				for e := 0; e < 2; e++ {
+					c := mk("streams-uppercase", "data", hx(data), "chunk", strconv.Itoa(ch), "eofwd", strconv.Itoa(e))
+					c.Family = "truncated-utf8-tail"
+					r.do(c)
+				}
 			}
 		}
 	}
